@@ -19,7 +19,7 @@ A write by "another process" between the SELECT and the compare-and-swaps of a p
 back (ops pselect/lselect with a third argument) - the only way to exercise the compare-and-swap inside one process.
 
 Suites: corpus (minimised cases), systematic (interleavings of per-actor tokens: memory path / store poll / crash /
-clock jumps; exhaustive in the thorough tier where <= 20000), default and legacy (seeded random scenarios, half of them
+clock jumps; exhaustive in the thorough tier where <= 5100 interleavings), default and legacy (seeded random scenarios, half of them
 drained: everybody dies, the clock passes every boundary, a fresh instance polls until idle), components
 (get_scheduled_jobs_to_start / _capture_scheduled_job / get_delayed_calls_to_start / _capture_calls on random tables
 vs candidates / cas / lcandidates). Every scenario is compared with `view (run cfg steps init)` evaluated in Coq.
@@ -1799,7 +1799,7 @@ def run(ctx):
     prog_tasks = []
     for pi_, (name, cfgv, prefix, tokens) in enumerate(PROGRAMS):
         rng = random.Random('%s/prog/%s' % (ctx.seed, name))
-        limit = ctx.n(120, 20000)
+        limit = ctx.n(120, 5100)
         allp = None
         import math
         from collections import Counter
@@ -1823,9 +1823,9 @@ def run(ctx):
         for ch in chunks(orders, 60):
             prog_tasks.append(('program', pi_, ch))
     # 3. random scenarios, 4. legacy, 5. components
-    nrand = ctx.n(1200, 20000)
-    nleg = ctx.n(500, 8000)
-    ncomp = ctx.n(1500, 20000)
+    nrand = ctx.n(1200, 12000)
+    nleg = ctx.n(500, 5000)
+    ncomp = ctx.n(1500, 15000)
     rnd_tasks = [('random', '%s/rand/%d' % (ctx.seed, i), 50) for i in range(nrand // 50)]
     leg_tasks = [('lrandom', '%s/leg/%d' % (ctx.seed, i), 50) for i in range(nleg // 50)]
     comp_tasks = [('component', '%s/comp/%d' % (ctx.seed, i), 100) for i in range(ncomp // 100)]
